@@ -116,10 +116,31 @@ pub trait GraphNameIndex: TermIndex {
 //
 
 /// A generic implementation of [`TermIndex`].
-#[derive(Clone, Debug, Default)]
+#[derive(Debug, Default)]
 pub struct SimpleTermIndex<I: Index> {
     t2i: HashMap<SimpleTerm<'static>, I>,
     i2t: Vec<SimpleTerm<'static>>,
+}
+
+impl<I: Index> Clone for SimpleTermIndex<I> {
+    fn clone(&self) -> Self {
+        // NB: the terms in self.i2t borrow their data from the keys of self.t2i,
+        // so they must not be cloned as is (they would still borrow from the original);
+        // instead, i2t is rebuilt from the keys of the cloned map.
+        let t2i = self.t2i.clone();
+        let mut pairs: Vec<(usize, SimpleTerm<'static>)> = t2i
+            .iter()
+            .map(|(k, i)| {
+                let t2 = k.as_simple();
+                // the following is safe, for the same reason as in ensure_index below
+                let t2: SimpleTerm<'static> = unsafe { std::mem::transmute(t2) };
+                (i.into_usize(), t2)
+            })
+            .collect();
+        pairs.sort_unstable_by_key(|(i, _)| *i);
+        let i2t = pairs.into_iter().map(|(_, t)| t).collect();
+        Self { t2i, i2t }
+    }
 }
 
 impl<I: Index> SimpleTermIndex<I> {
